@@ -10,6 +10,8 @@ mod keys;
 mod printer;
 mod pty;
 mod rawmode;
+#[cfg(feature = "sqlite")]
+mod sqlite;
 
 use common::CharInfoEmitter;
 use std::io::{BufRead, Write};
@@ -30,6 +32,8 @@ fn exec_line(req: &str) -> String {
         Some(t) if t.starts_with("ed") => ed::exec(&f[1..]),
         Some("keys") => keys::exec(&f[1..]),
         Some("raw") => rawmode::exec(&f[1..]),
+        #[cfg(feature = "sqlite")]
+        Some("sqlite") => sqlite::exec(&f[1..]),
         Some("pr") => printer::exec(&f[1..]),
         Some("pr-raw") => printer::raw(&f[1..]),
         Some(t @ ("direct" | "seg")) => direct::exec(t, &f[1..]),
@@ -115,6 +119,8 @@ fn main() {
                 "ed14" => ed::gen_profile(&ctx, "ed14", ed::Profile::Complete, &mut sink),
                 "keys" => keys::gen(&ctx, &mut sink),
                 "raw" => rawmode::gen(&ctx, &mut sink),
+                #[cfg(feature = "sqlite")]
+                "sqlite" => sqlite::gen(&ctx, &mut sink),
                 "pr" => printer::gen(&ctx, &mut sink),
                 "direct" => direct::gen_direct(&ctx, &mut sink),
                 "seg" => direct::gen_seg(&ctx, &mut sink),
